@@ -9,6 +9,8 @@
 import PgProofs.KeyPath
 import PgProofs.KeyPathSet
 import PgProofs.Hier
+import PgProofs.Canon
+import PgProofs.Traverse
 namespace Pg.C10
 
 /-! ## 1. parse ∘ format -/
@@ -334,9 +336,7 @@ theorem C10_flatten_spec (fck : Bool) (v : Val) (h : isLeafLike v = false) :
       (fun acc pv => Assoc.set acc (.s (pathStrPc (!fck) pv.1)) pv.2) []) :=
   flatten_spec fck v h
 
-/-! Non-vacuity and instances (the inverse law `canonicalize (flatten v) = v` is *not* proved in
-general — see the report; these are evaluated instances of the model, the law itself is checked on
-the real code by the oracle on every generated canonical value). -/
+/-! Non-vacuity and instances. -/
 example : nodupVal (.dict [(.s ['a'], .list [.leaf (.int 1), .dict [(.i 5, .leaf .none)]]), (.s ['0'], .leaf (.str ['x']))]) = true := by
   decide
 example :
@@ -346,5 +346,89 @@ example :
      | .error _ => false) = true := by
   decide
 example : query (.dict [(.i 5, .leaf (.str ['x']))]) [.i 5] = .ok (.leaf (.str ['x'])) := rfl
+
+/-- EACH NODE ONCE: the walk reports pairwise distinct paths (with `C10_traverse_lookup` and
+`C10_traverse_complete`: the visit log is a bijection between visits and nodes). -/
+theorem C10_traverse_nodup (v : Val) (hn : nodupVal v = true) :
+    ((visitsPre v []).map (·.1)).Nodup := (walkOK v hn []).1
+
+/-! ## 5. flatten / canonicalize
+
+`canonical fck v` (decidable, `PgProofs/Canon.lean`) spells out what the flat form can express:
+dict keys are distinct; str keys are non-empty and, with the default `flatten_complex_keys=True`
+(`fck = true`, keys printed without brackets) free of `. [ ]`, with `flatten_complex_keys=False`
+bracket-balanced; a dict is not a list in disguise (`isListifiable`: all keys ints forming exactly
+`0..n-1`); recursively. Leaves, empty dicts and empty lists are canonical at any position. -/
+
+/-- INVERSE LAW, both modes: for every canonical value, canonicalizing its flattened form gives
+the value back (same nesting, same key types, same dict order). -/
+theorem C10_flatten_canon {dc : DigitClass} (h : DigitLaws dc) (fck : Bool) (v : Val)
+    (hc : canonical fck v = true) : canonicalize dc (flatten fck v) = .ok v :=
+  canonicalize_flatten h fck v hc
+
+/-- The full statement (only distinct dict keys assumed) … -/
+def C10_flatten_canon_Full : Prop :=
+  ∀ v : Val, nodupVal v = true → canonicalize asciiClass (flatten true v) = .ok v
+
+/-- … is false: an int-keyed dict `{0: 'x'}` flattens to `{'[0]': 'x'}`, which canonicalizes to the
+*list* `['x']` — the flat form cannot tell them apart (`isListifiable`). -/
+theorem C10_flatten_canon_counterexample : ¬ C10_flatten_canon_Full := by
+  intro h
+  have h1 := h (.dict [(.i 0, .leaf (.str ['x']))]) rfl
+  have h2 : canonicalize asciiClass (flatten true (.dict [(.i 0, .leaf (.str ['x']))])) =
+      .ok (.list [.leaf (.str ['x'])]) := rfl
+  rw [h2] at h1
+  injection h1 with h1
+  cases h1
+
+/-! Each remaining clause of `canonical` is needed (evaluated on the model; the same inputs are in
+the harness corpus and agree with the real code): a key with `.` under the default mode is split; an
+empty key raises KeyError; an unbalanced key under `flatten_complex_keys=False` raises ValueError;
+under that mode a balanced key with `.` is fine. -/
+example : canonicalize asciiClass (flatten true (.dict [(.s ['a', '.', 'b'], .leaf (.int 1))])) =
+    .ok (.dict [(.s ['a'], .dict [(.s ['b'], .leaf (.int 1))])]) := rfl
+example : canonicalize asciiClass (flatten true (.dict [(.s [], .leaf (.int 1))])) = .error .key := rfl
+example : canonicalize asciiClass (flatten false (.dict [(.s ['['], .leaf (.int 1))])) = .error .value := rfl
+example : canonical false (.dict [(.s ['a', '.', 'b'], .list [.leaf (.int 1), .dict []])]) = true := by decide
+example : canonical true (.dict [(.s ['a'], .list [.leaf (.int 1), .dict [(.i 5, .leaf .none), (.s ['0'], .list [])]])]) = true := by
+  decide
+
+/-- Converse on the image of `flatten`: a flat dict produced by `flatten` from a canonical value is
+reproduced by `flatten ∘ canonicalize`. -/
+theorem C10_canon_flatten_image {dc : DigitClass} (h : DigitLaws dc) (fck : Bool) (v : Val)
+    (hc : canonical fck v = true) :
+    ∃ w, canonicalize dc (flatten fck v) = .ok w ∧ flatten fck w = flatten fck v :=
+  ⟨v, canonicalize_flatten h fck v hc, rfl⟩
+
+/-- The converse does *not* hold as equality of ordered dicts for arbitrary flat dicts: entries of one
+sub-tree that are not adjacent come back grouped (`{'a.x':1, 'b':2, 'a.y':3}` ↦ `{'a.x':1, 'a.y':3,
+'b':2}`; equal as Python dicts, which ignore order — that weaker converse is not proved). -/
+theorem C10_canon_flatten_order_counterexample :
+    ∃ d w, canonicalize asciiClass d = .ok w ∧ (flatten true w == d) = false :=
+  ⟨.dict [(.s ['a', '.', 'x'], .leaf (.int 1)), (.s ['b'], .leaf (.int 2)), (.s ['a', '.', 'y'], .leaf (.int 3))],
+   .dict [(.s ['a'], .dict [(.s ['x'], .leaf (.int 1)), (.s ['y'], .leaf (.int 3))]), (.s ['b'], .leaf (.int 2))],
+   rfl, rfl⟩
+
+/-! ## 6. More of `KeyPathSet`: `==`, `has_prefix`, `subtree` -/
+
+/-- `s1 == s2` iff the two sets have the same members. -/
+theorem C10_set_eq (a b : Trie) (ha : wf a = true) (hb : wf b = true) :
+    Trie.beq a b = true ↔ ∀ q, dollarFree q = true → has a q = has b q :=
+  beq_iff a b ha hb
+
+/-- `has_prefix(p)` never raises and says whether some member extends `p` (for the root prefix on
+the empty set the code answers True: excluded by the last hypothesis). -/
+theorem C10_set_has_prefix (t : Trie) (p : Path) (h : wf t = true) (hp : dollarFree p = true)
+    (hne : t.nonEmpty = true ∨ p ≠ []) :
+    ∃ b, hasPrefix t p = .ok b ∧ (b = true ↔ ∃ r, dollarFree r = true ∧ has t (p ++ r) = true) :=
+  hasPrefix_spec p t h hp hne
+
+/-- `subtree(p)`: `None` iff no member extends `p`; otherwise the set of the remainders. -/
+theorem C10_set_subtree (t : Trie) (p : Path) (h : wf t = true) (hp : dollarFree p = true) :
+    ∃ o, subtree t p = .ok o ∧
+      (match o with
+       | some t' => wf t' = true ∧ ∀ q, has t' q = has t (p ++ q)
+       | none => ∀ q, has t (p ++ q) = false) :=
+  subtree_spec p t h hp
 
 end Pg.C10
